@@ -11,7 +11,7 @@ import warnings
 
 import torch
 
-from common import BUILD, Infra, time_limit
+from common import BUILD, Infra, Raw, sx, time_limit
 from c11_canon import canon, echo_canon, first_diff
 from c11_hist import DT_HIST as DT, mk_tensor
 
@@ -220,3 +220,60 @@ def run_trips(run):
             pool.terminate()
             pool.join()
         shutil.rmtree(scratch, ignore_errors=True)
+
+
+# ------------------------------------------------------------------------------------ pytree vs the Lean model
+def run_pytree(run, drv):
+    """tree_flatten / tree_unflatten of nested tensordicts vs Model/C11Pytree.lean: leaves in order, the TreeSpec
+    (keys, batch_size, names, device per node) and the tree rebuilt from *new* leaves (what tree_map does)."""
+    from tensordict import TensorDict, TensorDictBase
+    from torch.utils import _pytree as pytree
+    from common import parse_sx
+    rng = run.rng
+    quick = run.tier == "quick"
+
+    def gen(depth, b, device, names, counter):
+        keys = list("abcdef")
+        rng.shuffle(keys)
+        d = {}
+        for k in keys[: rng.randint(0 if depth else 1, 3)]:
+            if depth < 2 and rng.random() < 0.35:
+                d[k] = gen(depth + 1, b, device, names, counter)
+            else:
+                d[k] = torch.full(b + rng.choice([[], [2]]), counter[0])
+                counter[0] += 1
+        return TensorDict(d, batch_size=b, device=device, names=names)
+
+    def td_sx(td):
+        parts = ["n", list(td.batch_size), list(td.names) if td._has_names() else None, None if td.device is None else str(td.device), bool(td.is_locked)]
+        for k, v in td.items():
+            parts.append([k, Raw(td_sx(v))] if isinstance(v, TensorDictBase) else [k, ["l", int(v.reshape(-1)[0])]])
+        return sx(*parts)
+
+    def tree(td):
+        out = ["n", list(td.batch_size), list(td.names) if td._has_names() else "none", "none" if td.device is None else str(td.device), "true" if td.is_locked else "false"]
+        for k, v in td.items():
+            out.append([k, tree(v)] if isinstance(v, TensorDictBase) else [k, ["l", int(v.reshape(-1)[0])]])
+        return out
+
+    def spec_of(spec):
+        if spec.is_leaf():
+            return "*"
+        c = spec.context
+        return [list(c["keys"]), list(c["batch_size"]), list(c["names"]) if c["names"] is not None else "none",
+                "none" if c["device"] is None else str(c["device"]), [spec_of(s) for s in spec.children_specs]]
+
+    from common import Raw, sx
+    for it in range(60 if quick else 600):
+        b = rng.choice([[2], [3], [2, 2], []])
+        td = gen(0, b, rng.choice([None, "cpu"]), rng.choice([None, ["t", "u"][: len(b)]]) if b else None, [0])
+        if rng.random() < 0.4:
+            td.lock_()
+        leaves, spec = pytree.tree_flatten(td)
+        n = len(leaves)
+        new_ids = [100 + i for i in range(n)]
+        rebuilt = pytree.tree_unflatten([torch.full_like(l, 100 + i) for i, l in enumerate(leaves)], spec)
+        impl = [[int(l.reshape(-1)[0]) for l in leaves], spec_of(spec), tree(rebuilt)]
+        m = parse_sx(drv.ask(sx("c11.pytree", Raw(td_sx(td)), new_ids)))
+        run.case(("pytree", it))
+        run.corr("pytree(leaves, spec, unflatten)", td_sx(td)[:500], impl, [list(m[0]), m[1], m[2]])
